@@ -8,7 +8,8 @@ RULE = ("every program TLC enumerates within the bounds (processes x ops over th
         "refused calls, return/raise of run) compared with the specification's; plus on-the-fly generated larger programs validated by "
         "TLC (KernelTrace). non-trivial = program whose run has >= 3 effects at one instant, an interrupt or failure delivery, a refused "
         "call or run() raising; counted per distinct program. Float delays (0.1, 0.2, 0.3, 0.7, ...) are covered by generated programs whose instants "
-        "are replaced by their ranks among the exact float sums t0 + d")
+        "are replaced by their ranks among the exact float sums t0 + d. The agenda of every Environment created by the repository's own 119 tests "
+        "and its demo programs is recorded (schedule calls, popped events) and validated against AgendaTrace.tla")
 KINDS = {"sleep": 5, "timeout": 2, "event": 2, "succeed": 2, "spawn": 2, "interrupt": 1.5, "yield": 4, "baddelay": 0.3}
 
 
@@ -25,6 +26,7 @@ def run(ctx, replay=None):
         kernlib.gen_validate(ctx, 20000, KINDS)
         kernlib.gen_validate(ctx, 5000, KINDS, max_procs=6, max_ops=8, max_events=40, label="generated-large")
         kernlib.gen_validate(ctx, 10000, KINDS, label="generated-float-delays", **{"float": kernlib.FLOAT})
+    kernlib.agenda_traces(ctx)
     return ctx.finish(RULE, assumptions=["float delays are handled by rank abstraction: the harness tabulates the float sums t + d, the specification decides order and equality of instants"])
 
 
